@@ -28,18 +28,22 @@ THEOREMS = [_T + n for n in (
     'C15_rows_rev_fixed',
     'C15_live_variant', 'C15_reject_where', 'C15_rows_rev', 'C15_rows_spellings', 'C15_rows_stmt',
     'C15_dbt_limit', 'C15_dbt_rows', 'C15_dbt_reject_inner', 'C15_witness_dbt_outer_ignored', 'C15_witness_dbt_outer',
-    'C15_witness_1', 'C15_witness_null', 'C15_full_false')]
+    'C15_witness_1', 'C15_witness_null', 'C15_full_false',
+    'C15_replace_subqueries', 'C15_replace_conjuncts', 'C15_plan_subqueries', 'C15_witness_deep_replace',
+    'C15_witness_deep_rows')]
 ASSUME = [
     'plan_timeseries_predictor / ts_utils are hand-modelled (MindsVerif.TS.planTS cfg); tie = plan correspondence stream (exact WHERE trees of every generated select, per time-series join of the statement)',
     'the variant of the WHERE handling (deep validation, operand normalisation) is probed on the live code by tools/extract/x_c15.py (two queries) and pinned by the obligation C15_live_variant; the driver plans with the probed variant',
     'row semantics of the model (three-valued WHERE, ORDER BY t DESC as a stable sort of an arbitrary physical order, LIMIT) is tied to sqlite3 3.40 by the eval stream; sqlite3 is a reference engine, not part of a theorem; the specification predicate restSel evaluates the partition filters with the same evaluator',
     "'$var[col]' is read as substitution of the partition record value; the row theorems need envOk: no NULL in the record, or a null-safe executor (C15_rows_nullsafe); with plain SQL equality a record with a NULL receives no rows (C15_null_partition_empty). reduce='union' is read as concatenation",
-    'theorem domain: one time condition in any of the sixteen spellings (C15_rows_spellings; C15_rows: the nine column-first classes for every variant) over any totally preordered value domain (VOrd: Int, ISO date strings, ...), partition filters g op c / IN / BETWEEN in any AND nesting; outside it (IN / >= LATEST / BETWEEN … LATEST on the order column, column-to-column comparisons) only the correspondence and the crash probe speak',
+    'theorem domain: one time condition in any of the sixteen spellings (C15_rows_spellings; C15_rows: the nine column-first classes for every variant) over any totally preordered value domain (VOrd: Int, ISO date strings, ...), partition filters g op c / IN / BETWEEN / g IN (sub-query over a second table, any WHERE) in any AND nesting; outside it (IN / >= LATEST / BETWEEN … LATEST on the order column, column-to-column comparisons) only the correspondence and the crash probe speak',
     'for an exact time (`t = c`) the specification is "the window most recent rows up to c" (the parenthesis of the property text): TC.cond (.eq c) = false',
     'the driver instantiates the value domain with Int; ISO date strings of the generated queries/tables are mapped to day numbers (order isomorphism) before they reach the model',
     'statements with several time-series joins: C15_rows_stmt states the per-join property for a list of joins planned one by one; that the real planner gives every join its own partition step and selects is checked by the probe (step references), not proved',
     'adapt_dbt_query is modelled as adaptDbt on the abstract query (LATEST conditions of the outer WHERE appended, limits merged by min); its alias bookkeeping (stripping / adding table aliases, integration prefix) is below the abstraction and is exercised by the dbt stream only',
     'column and predictor names are matched case-insensitively: the abstraction absW classifies names by lower-case equality, the streams spell the catalog entries and the query occurrences in independent random case',
+    'sub-queries: the model keeps the WHERE of a sub-select (W.sub) and the children of value lists / CAST / CASE / argument lists (W.cont) as written; the rest of a sub-select is a code number; IN (sub-query) is evaluated as an uncorrelated sub-query over a second table (Env.shops), tied to sqlite3 by the ES/FS lines of the eval stream; scalar sub-queries, functions, NOT, CASE are outside ev (plan stream and probe only). The abstraction absW ignores table qualifiers, identifier case and parentheses: structural equality of the model is coarser than ASTNode.__eq__ (the generator plants twins that are equal in both senses; near misses are probe-only material)',
+    'the probe evaluates a conjunct with a sub-query / value list / CAST / CASE operand by running the user\'s own text of the conjunct on sqlite3 over the same two tables (differential: user text vs the queries the planner sends)',
     'plan glue (FROM table, SELECT *, integration, step wiring, join side) is checked by the probe, not proved; the ambiguity check of join identifiers is not modelled (the probe checks that an unqualified column raises PlanningException)',
 ]
 
@@ -219,7 +223,19 @@ def absW(node, nG):
         if all(isinstance(i, ast.Constant) and isinstance(i.value, int) and not isinstance(i.value, bool)
                for i in node.items):
             return '(T%s)' % ''.join(' %d' % i.value for i in node.items)
-        return '(O %d)' % (1 if mentions_foreign(node, nG) else 0)
+        return abs_cont(node, 0, list(node.items), nG)
+    if isinstance(node, ast.Select):
+        # a sub-query: its WHERE is part of the tree (the planner must leave it alone), the rest is a code
+        try:
+            return '(S %d %s)' % (sub_code(node, nG), 'N' if node.where is None else absW(node.where, nG))
+        except Unabstractable:
+            return '(O 0)'
+    if isinstance(node, ast.TypeCast):
+        return abs_cont(node, 1, [node.arg], nG)
+    if isinstance(node, ast.Case):
+        kids = ([node.arg] if node.arg is not None else []) + [x for rule in node.rules for x in rule] + \
+            ([node.default] if node.default is not None else [])
+        return abs_cont(node, 2, kids, nG)
     if isinstance(node, ast.BetweenOperation):
         return '(w %s %s %s)' % tuple(absW(a, nG) for a in node.args)
     if isinstance(node, ast.BinaryOperation):
@@ -232,6 +248,8 @@ def absW(node, nG):
             o = 'bad%d' % (BADOPS.index(op) if op in BADOPS else 99)
         return '(b %s %s %s)' % (o, absW(node.args[0], nG), absW(node.args[1], nG))
     if isinstance(node, ast.Operation):       # UnaryOperation, Function, ...: never an allowed op
+        if len(node.args) >= 2:                 # a function call: all its arguments
+            return '(u %s)' % abs_cont(node, 3, list(node.args), nG)
         if len(node.args) >= 1:
             try:
                 return '(u %s)' % absW(node.args[0], nG)
@@ -239,6 +257,79 @@ def absW(node, nG):
                 pass
         return '(u (O %d))' % (1 if mentions_foreign(node, nG) else 0)
     return '(O %d)' % (1 if mentions_foreign(node, nG) else 0)
+
+
+def abs_cont(node, kind, kids, nG):
+    """a node that is not an Operation with conditions / values inside it -> (K f kind first rest), rest = N at the end"""
+    f = 1 if mentions_foreign(node, nG) else 0
+    try:
+        out = 'N'
+        for k in reversed(kids):
+            out = '(K %d %d %s %s)' % (f, kind, absW(k, nG), out)
+        return out if kids else '(O %d)' % f
+    except Unabstractable:
+        return '(O %d)' % f
+
+
+def sub_code(sel, nG):
+    """everything of a sub-select but its WHERE, as the number Model/TS.lean documents for `W.sub`"""
+    _, _, _, _, ast, _ = _imports()
+    try:
+        ft = sel.from_table
+        if not isinstance(ft, ast.Identifier) or ft.parts[-1].lower() != 'shops' or sel.group_by or sel.order_by \
+                or sel.having is not None or sel.limit is not None or sel.offset is not None or sel.distinct \
+                or len(sel.targets) != 1 or getattr(sel, 'cte', None):
+            return 999
+        t, base = sel.targets[0], 0
+        if isinstance(t, ast.Function) and t.op.lower() in ('max', 'min') and len(t.args) == 1:
+            base, t = (100 if t.op.lower() == 'max' else 200), t.args[0]
+        if isinstance(t, ast.Identifier):       # qualifiers are below the abstraction (as everywhere in absW)
+            name = t.parts[-1].lower()
+            if name == TIME:
+                return base
+            if name in GROUPS[:nG]:
+                return base + 1 + GROUPS.index(name)
+    except Exception:
+        pass
+    return 999
+
+
+def sexp(w):
+    """abstract W text -> nested lists"""
+    toks = w.replace('(', ' ( ').replace(')', ' ) ').split()
+    def rd(i):
+        if toks[i] != '(':
+            return toks[i], i + 1
+        out, i = [], i + 1
+        while toks[i] != ')':
+            x, i = rd(i)
+            out.append(x)
+        return out, i + 1
+    return rd(0)[0]
+
+
+def evaluable(w):
+    """can Lean's `ev` evaluate this WHERE (abstract text)? comparisons / IN lists / BETWEEN / AND / OR / IS NOT NULL /
+    `col IN (sub-query returning a column)`; no foreign columns, functions, containers, LATEST, scalar sub-queries"""
+    def ok(t, cond):
+        if isinstance(t, str):
+            return t == 'N' and not cond
+        h = t[0]
+        if h == 'b':
+            if t[1] in ('and', 'bad0'):
+                return cond and ok(t[2], True) and ok(t[3], True)
+            if t[1] == 'in' and t[3][0] == 'S':
+                return cond and ok(t[2], False) and int(t[3][1]) < 100 and (t[3][2] == 'N' or ok(t[3][2], True))
+            return cond and t[1] in ('gt', 'ge', 'eq', 'lt', 'le', 'in', 'isnot') and ok(t[2], False) and ok(t[3], False)
+        if h == 'w':
+            return cond and all(ok(x, False) for x in t[1:])
+        if h == 'i':
+            return not cond and t[1] != 'x'
+        return not cond and h in ('c', 'v', 'T')
+    try:
+        return ok(sexp(w), True)
+    except Exception:
+        return False
 
 
 def absW_safe(node, nG):
@@ -356,13 +447,100 @@ def gen_pf(rng, nG):
             '(w (i g %d) (c %d) (c %d))' % (i, a, b))
 
 
+TMARK = '\u00a7'      # stands for the order column inside a generated statement until its spelling (t / T) is fixed
+
+
+def twins_of(tc_sql):
+    """structural twins of the time condition as ts_utils sees it after validation: the user's spelling without the table
+    alias, and the column-first form the operand swap turns `c op t` into. (LATEST conditions have none: they are removed,
+    not replaced.)"""
+    if tc_sql is None or 'LATEST' in tc_sql:
+        return []
+    user = tc_sql.replace('{a}', '')
+    out = [user]
+    m = re.fullmatch(r"(\S+) (<=|>=|<|>|=) (%s)" % TMARK, user)
+    if m:
+        out.append('%s %s %s' % (m.group(3), MIRROR[m.group(2)], m.group(1)))
+    return out
+
+
+def gen_subcond(rng, twins, tconst):
+    """the WHERE of a sub-query over shops(t, g, h, x): AND / OR / NOT / function / CASE structure over conditions among
+    which the twins of the outer time condition are planted (and near misses: other constant, other operator,
+    parenthesised)"""
+    def tcond():
+        return '%s %s %s' % (rng.choice([TMARK, TMARK, 't', 'shops.t']), rng.choice(CMPS), tconst(rng.randrange(0, 5)))
+
+    def atom(cmp_only=False):
+        k = rng.random()
+        if twins and k < 0.45:
+            tw = rng.choice(twins)
+            if not (cmp_only and ' between ' in tw):
+                return tw
+        if k < 0.6:
+            return tcond()
+        if k < 0.8 or cmp_only:
+            return '%s %s %d' % (rng.choice(['g', 'g', 'h']), rng.choice(CMPS), rng.randrange(0, 3))
+        if k < 0.88:
+            return 'h in (0, 1)'
+        if k < 0.94:
+            return 'g between 0 and 1'
+        return 'x = %d' % rng.randrange(2)
+
+    def tree(d):
+        """(text, is an AND/OR of several conditions)"""
+        k = rng.random()
+        if d >= 2 or k < 0.35:
+            return atom(), False
+        if k < 0.75:
+            op = ' and ' if k < 0.5 else ' or '
+            parts = [tree(d + 1) for _ in range(rng.choice([2, 2, 3]))]
+            return op.join('(%s)' % x if compound else x for x, compound in parts), True
+        if k < 0.82:
+            return 'not %s' % atom(cmp_only=True), False
+        if k < 0.9:
+            return 'coalesce(%s, 0) = 1' % atom(), False
+        if k < 0.95:
+            return '(%s)' % atom(), False
+        return '(case when %s then 1 else 0 end) = 1' % atom(), False
+    return tree(0)[0]
+
+
+def gen_pf_closed(rng, nG, twins, tconst, dates):
+    """a filter on a group column whose other operand is a node the planner must not look into: a sub-query over a second
+    table (IN / scalar comparison; its WHERE may spell the outer time condition), or -- second element 'mix' -- a value
+    list / CAST / CASE with a condition on the order column inside. Returns (sql with {a}, ('sql', same text for sqlite))"""
+    i = rng.randrange(nG)
+    col = GROUPS[i]
+    k = rng.random()
+    def where():
+        return '' if rng.random() < 0.08 else ' where ' + gen_subcond(rng, twins, tconst)
+    if k < 0.5:
+        tgt = rng.choice([col, col, col, GROUPS[1 - i] if nG > 1 else col] + ([] if dates else ['t']))
+        w = where()
+        if rng.random() < 0.15:      # a sub-query inside the sub-query
+            w = (w + ' and ' if w else ' where ') + 'h in (select h from int.shops%s)' % where()
+        sql = '{a}%s in (select %s from int.shops%s)' % (col, tgt, w)
+    elif k < 0.72:
+        sql = '{a}%s %s (select %s(%s) from int.shops%s)' % (col, rng.choice(CMPS), rng.choice(['max', 'min']), col, where())
+    else:
+        tw = rng.choice(twins) if twins and rng.random() < 0.7 else '%s %s %s' % (TMARK, rng.choice(CMPS), tconst(rng.randrange(0, 5)))
+        if ' between ' in tw:
+            tw = '%s > %s' % (TMARK, tconst(rng.randrange(0, 5)))
+        sql = rng.choice(['{a}%s in (%s, %d)' % (col, tw, rng.randrange(0, 3)),
+                          '{a}%s in (%d, %s)' % (col, rng.randrange(2, 4), tw),
+                          '{a}%s = cast(%s as int)' % (col, tw),
+                          '{a}%s = case when %s then 1 else 0 end' % (col, tw)])
+    return sql, ('sql', sql.replace('{a}', '').replace('int.shops', 'shops'))
+
+
 TCLASSES = ['gt', 'ge', 'eq', 'lt', 'le', 'btw', 'gtLatest', 'eqLatest', 'none']
 
 
-def gen_tc(rng, cls):
+def gen_tc(rng, cls, tid=None):
     """time condition: (sql, cond(v)->bool or None, before(v)->bool or None, abstract W, expected otf sql)"""
     c = rng.randrange(0, 5)
-    tid = '{a}' + rng.choice(['t', 't', 'T'])
+    tid = tid or '{a}' + rng.choice(['t', 't', 'T'])
     if cls == 'gt':
         return ('%s > %d' % (tid, c), lambda v: v > c, lambda v: v <= c, '(b gt (i t) (c %d))' % c)
     if cls == 'ge':
@@ -433,8 +611,10 @@ def gen_case(rng, kind=None, nG=None, window=None, model='tp3', no_limit=False, 
     leaves, pfs = [], []
     tc = None
     case['dates'] = rng.random() < 0.35
+    tsp = rng.choice(['t', 't', 'T'])       # how this statement spells the order column (TMARK until the end)
+    tconst = (lambda k: "'%s'" % date_of(k)) if case['dates'] else str
     if cls != 'none':
-        tc = gen_tc(rng, cls)
+        tc = gen_tc(rng, cls, tid='{a}' + TMARK)
         if case['dates']:      # the same condition over ISO date strings
             tc = (re.sub(r'\b(\d+)\b', lambda m: "'%s'" % date_of(int(m.group(1))), tc[0]),) + tc[1:]
         leaves.append((tc[0], tc[3]))
@@ -442,6 +622,14 @@ def gen_case(rng, kind=None, nG=None, window=None, model='tp3', no_limit=False, 
         pf = gen_pf(rng, nG)
         pfs.append(pf[1])
         leaves.append((pf[0], pf[2]))
+    # filters whose operand is a sub-query / value list / CAST / CASE: structural twins of the time condition are planted
+    # inside them (IN-subselects, OR branches, function arguments, nested sub-queries, list items)
+    n_closed = rng.choice([1, 1, 2]) if (nG and kind in ('dom', 'rev', 'rej') and rng.random() < 0.4) else 0
+    for _ in range(n_closed):
+        pf = gen_pf_closed(rng, nG, twins_of(tc[0] if tc else None), tconst, case['dates'])
+        pfs.append(pf[1])
+        leaves.append((pf[0], None))
+    case['closed'] = n_closed
     rng.shuffle(leaves)
     tail = ''
     lim = None if no_limit else rng.choice([None, None, 1, 2, 7, 0])
@@ -449,7 +637,7 @@ def gen_case(rng, kind=None, nG=None, window=None, model='tp3', no_limit=False, 
     if kind == 'rej':
         r = rng.choice(['order', 'group', 'having', 'offset', 'foreign', 'foreign_and', 'badop', 'badop2', 'not',
                         'two_time', 'hidden_tuple', 'hidden_cast', 'hidden_btw3', 'bare_operand', 'unqualified',
-                        'func', 'arith'])
+                        'func', 'arith', 'dup_time'])
         case['rej'] = r
         case['expect'] = 'planning'
         if r == 'order':
@@ -476,6 +664,11 @@ def gen_case(rng, kind=None, nG=None, window=None, model='tp3', no_limit=False, 
         elif r == 'two_time':
             leaves.append(('{a}t > 1', '(b gt (i t) (c 1))'))
             leaves.append(('{a}t < 4', '(b lt (i t) (c 4))'))
+        elif r == 'dup_time':       # the time condition written twice: two filters on the order column
+            dup = tc[0] if tc else '{a}%s > 1' % TMARK
+            if not tc:
+                leaves.append((dup, None))
+            leaves.insert(rng.randrange(len(leaves) + 1), (dup, None)); absw_override = True
         elif r == 'hidden_tuple':
             col = GROUPS[0] if nG else 't'
             leaves.append(('{a}%s in ({a}x, 1)' % col, None)); absw_override = True
@@ -500,13 +693,19 @@ def gen_case(rng, kind=None, nG=None, window=None, model='tp3', no_limit=False, 
             col = GROUPS[0] if nG else 't'
             leaves.append(('{a}%s = 1 + {a}x' % col, None)); absw_override = True
     elif kind == 'misc':
-        r = rng.choice(['in_time', 'ge_latest', 'lt_latest', 'btw_latest', 'col_col', 'paren_time', 'latest_gt', 'latest_le'])
+        r = rng.choice(['in_time', 'ge_latest', 'lt_latest', 'btw_latest', 'col_col', 'paren_time', 'latest_gt', 'latest_le',
+                        'twin_eq', 'twin_btw', 'twin_eq', 'twin_btw'])
         case['misc'] = r
         col = GROUPS[0] if nG else 't'
         leaves = [l for l in leaves if l[1] and '(i t)' not in l[1]]
+        # twin_*: a second occurrence of the (parenthesised) time condition as an operand of another condition --
+        # replace_time_filter walks into the operands of `=` (BinaryOperation) and not into those of BETWEEN
+        tw = '({a}%s %s %d)' % (TMARK, rng.choice(CMPS), rng.randrange(0, 4))
         extra = {'in_time': '{a}t in (1, 2)', 'ge_latest': '{a}t >= LATEST', 'lt_latest': '{a}t < LATEST',
                  'btw_latest': '{a}t between 1 and LATEST', 'col_col': '{a}%s = {a}t' % col,
-                 'paren_time': '({a}t > 2)', 'latest_gt': 'LATEST > {a}t', 'latest_le': 'LATEST <= {a}t'}[r]
+                 'paren_time': '({a}t > 2)', 'latest_gt': 'LATEST > {a}t', 'latest_le': 'LATEST <= {a}t',
+                 'twin_eq': '%s and {a}%s %s %s' % (tw, col if nG else 'g', rng.choice(['=', '>=', 'in']), tw),
+                 'twin_btw': '%s and {a}%s between %s and 2' % (tw, col if nG else 'g', tw)}[r]
         leaves.append((extra, None)); absw_override = True
         tc = None
     where_sql = ''
@@ -529,6 +728,8 @@ def gen_case(rng, kind=None, nG=None, window=None, model='tp3', no_limit=False, 
     if cat is not None:
         case['cat'] = cat
         sql = recase_sql(rng, sql)
+    sql = sql.replace(TMARK, tsp)
+    pfs = [(p[0], p[1].replace(TMARK, tsp)) if p[0] == 'sql' else p for p in pfs]
     case.update(sql=sql, limit=lim, cls=cls if kind in ('dom', 'rev') else None, absw=absw)
     case['_tc'] = tc
     case['_pfs'] = pfs
@@ -598,12 +799,21 @@ def gen_dbt(rng):
         pf = gen_pf(rng, nG)
         pfs.append(pf[1])
         inner_leaves.append((pf[0], pf[2]))
+    n_closed = 1 if (nG and rng.random() < 0.25) else 0
+    for _ in range(n_closed):     # a partition filter with a sub-query over a second table inside the sub-select
+        tw = [] if (tc is None or time_outside) else [x.replace(TMARK, 't') for x in twins_of(re.sub(r'\{a\}[tT]\b', TMARK, tc[0]))]
+        while True:
+            pf = gen_pf_closed(rng, nG, tw, str, False)
+            if 'select' in pf[0]:
+                break
+        pfs.append((pf[1][0], pf[1][1].replace(TMARK, 't')))
+        inner_leaves.append((pf[0].replace(TMARK, 't'), None))
     rng.shuffle(inner_leaves)
     ilim = rng.choice([None, None, 0, 1, 3, 5, 7])
     olim = rng.choice([None, None, 0, 2, 4, 9])
     kind = rng.choice(['dom'] * 6 + ['rej', 'dbtx', 'dbtx'])
     case = dict(kind='rev' if cls.startswith('rev_') else 'dom', nG=nG, window=window, flags='0000', expect=None,
-                cls=cls, dbt=True, dates=False, ilim=ilim, olim=olim, limit=min_limit(ilim, olim), absw=None)
+                cls=cls, dbt=True, dates=False, ilim=ilim, olim=olim, limit=min_limit(ilim, olim), absw=None, closed=n_closed)
     inner_tail, outer_tail, outer_extra = '', '', None
     if kind == 'rej':
         r = rng.choice(['dbt_inner_order', 'dbt_inner_group', 'dbt_inner_offset', 'dbt_inner_foreign', 'dbt_two_time'])
@@ -724,12 +934,19 @@ def substitute(query, pvals, nullsafe=False):
     return q
 
 
-def make_db(rows, dates=False):
+def gen_shops(rng):
+    """rows (id, t, g, h, x) of the second table `shops` the sub-queries of partition filters select from"""
+    return [(i, rng.choice([None, 0, 1, 2, 3, 4, 5]), rng.choice([None, 0, 1, 1, 2, 3]), rng.choice([None, 0, 1]),
+             rng.choice([None, 0, 1])) for i in range(rng.randrange(0, 6))]
+
+
+def make_db(rows, dates=False, shops=()):
     db = sqlite3.connect(':memory:')
-    db.execute('create table tbl (id integer, t %s, g integer, h integer, x integer)' % ('text' if dates else 'integer'))
-    if dates:
-        rows = [(r[0], date_of(r[1])) + tuple(r[2:]) for r in rows]
-    db.executemany('insert into tbl values (?,?,?,?,?)', rows)
+    for name, rs in (('tbl', rows), ('shops', shops or ())):
+        db.execute('create table %s (id integer, t %s, g integer, h integer, x integer)' % (name, 'text' if dates else 'integer'))
+        if dates:
+            rs = [(r[0], date_of(r[1])) + tuple(r[2:]) for r in rs]
+        db.executemany('insert into %s values (?,?,?,?,?)' % name, [tuple(r) for r in rs])
     return db
 
 
@@ -769,6 +986,70 @@ def otf_expected(case):
 MIRROR = {'>': '<', '>=': '<=', '<': '>', '<=': '>=', '=': '='}
 
 
+def subselects_of(where):
+    """the outermost sub-selects of a WHERE tree in the order written: (table, select list | WHERE as printed)"""
+    _, _, _, _, ast, _ = _imports()
+    from mindsdb_sql.planner.utils import query_traversal
+    out = []
+
+    def cb(n, **kw):
+        if isinstance(n, ast.Select):
+            ft = n.from_table
+            w = '' if n.where is None else str(n.where)
+            # what the planner does to every sub-select (nested ones too): integration prefix dropped, `col AS col`
+            w = re.sub(r'(?i)\bselect (\S+) as \w+ from\b', r'SELECT \1 FROM', w)
+            w = re.sub(r'(?i)\bfrom int\.', 'FROM ', w)
+            tg = []
+            for t in n.targets:
+                t = copy.deepcopy(t)
+                t.alias = None
+                tg.append(str(t))
+            out.append((ft.parts[-1] if isinstance(ft, ast.Identifier) else str(ft), ', '.join(tg) + ' | ' + w))
+            return n
+    if where is not None:
+        query_traversal(copy.deepcopy(where), cb)
+    return out
+
+
+def correlated(where):
+    """does a sub-select of this WHERE name a column of another table than its own (`tbl.g` inside `… FROM shops`)?"""
+    _, _, _, _, ast, _ = _imports()
+    from mindsdb_sql.planner.utils import query_traversal
+    hit = []
+
+    def scan(sel):
+        ft = sel.from_table
+        own = {str(ft.parts[-1]).lower()} if isinstance(ft, ast.Identifier) else set()
+        if isinstance(ft, ast.Identifier) and ft.alias is not None:
+            own = {str(ft.alias.parts[-1]).lower()}
+
+        def cb(n, is_table=False, **kw):
+            if isinstance(n, ast.Select) and n is not sel:
+                scan(n)
+                return n
+            if isinstance(n, ast.Identifier) and not is_table and len(n.parts) > 1 and str(n.parts[-2]).lower() not in own:
+                hit.append(str(n))
+        query_traversal(sel, cb)
+
+    def top(n, **kw):
+        if isinstance(n, ast.Select):
+            scan(n)
+            return n
+    if where is not None:
+        query_traversal(copy.deepcopy(where), top)
+    return bool(hit)
+
+
+def user_subselects(case):
+    """the sub-selects of the WHERE the user wrote for this time-series join"""
+    parse_sql, _, _, _, ast, _ = _imports()
+    q = parse_sql(case.get('part_sql') or case['sql'], 'mindsdb')
+    if case.get('dbt'):
+        j = q.from_table
+        q = j.left if isinstance(j.left, ast.Select) else j.right
+    return subselects_of(q.where)
+
+
 def norm_cond(n):
     """a time condition up to the spelling `c op t` / `t op' c` (same meaning): (op, [printed operands])"""
     _, _, _, _, ast, _ = _imports()
@@ -803,6 +1084,7 @@ def probe_case(case, tables):
         d['class'] = sig
         fails.append(d)
 
+    late = []
     line, plan, err = canon_real(case)
     if case['kind'] == 'dbtx':
         # a clause of the OUTER query of the dbt form: it must be honoured or rejected; it is *ignored* when the
@@ -897,6 +1179,24 @@ def probe_case(case, tables):
                  'output_time_filter is %r, the user\'s time condition is %r' % (
                      str(ap.output_time_filter) if ap.output_time_filter is not None else None, exp),
                  expected=exp, actual=act)
+        # ---- every sub-query of the user's WHERE is part of every query sent to the data source, unchanged
+        if case.get('closed'):
+            want = user_subselects(case)
+            for x in subs + ([part] if part is not None else []):
+                got = subselects_of(x.query.where)
+                if got == want:
+                    continue
+                names = set(re.findall(r'\b(\w+)\.', ' '.join(g[1] for g in got))) - {'shops'}
+                unq = [(g[0], re.sub(r'\b(%s)\.' % '|'.join(sorted(names) or ['-']), '', g[1])) for g in got]
+                if case.get('dbt') and unq == want:
+                    # KF-C15-8: add_aliases of adapt_dbt_query qualifies the columns of a sub-query with the data table
+                    fail('dbt-subquery-captured', 'dbt form: the columns inside a sub-query of the sub-select\'s WHERE are qualified '
+                         'with the data table (%s), which turns the sub-query into a correlated one' % sorted(names),
+                         user=want, sent=got, query=str(x.query))
+                    return fails            # the row sets differ as a consequence
+                late.append(('subquery-rewritten:%s' % case['cls'], 'a sub-query of the user\'s WHERE does not reach the data source as written',
+                             dict(user=want, sent=got, query=str(x.query))))      # reported after the row sets (below)
+                break
     except GlueError as e:
         fail('glue', 'plan shape: %s' % e, steps=[str(x)[:200] for x in plan.steps])
         return fails
@@ -905,23 +1205,33 @@ def probe_case(case, tables):
         return fails
     # ---- rows
     tc, pfs = case['_tc'], case['_pfs']
-    for rows in tables:
-        db = make_db(rows, bool(case.get('dates')))
+    for rows, shops in tables:
+        db = make_db(rows, bool(case.get('dates')), shops)
         try:
-            _probe_rows(case, rows, db, part, subs, nG, tc, pfs, fail)
+            _probe_rows(case, rows, db, part, subs, nG, tc, pfs, lambda sig, desc, **kw: fail(sig, desc, shops=shops, **kw))
         except sqlite3.Error as e:
-            fail('exec:%s' % case['cls'], 'a generated query is not executable by the engine: %s' % e, table=rows,
+            fail('exec:%s' % case['cls'], 'a generated query is not executable by the engine: %s' % e, table=rows, shops=shops,
                  selects=[str(f.query) for f in subs] + ([str(part.query)] if part is not None else []))
         if fails and fails[-1]['sig'].startswith(('rows', 'partitions', 'exec')):
             break
+    for sig, desc, kw in late:
+        fail(sig, desc, **kw)
     return fails
 
 
 def _probe_rows(case, rows, db, part, subs, nG, tc, pfs, fail):
     if True:
+        # the user's other conjuncts: the generator's own predicates, and -- for the ones with a sub-query / value list /
+        # CAST / CASE operand -- the user's text of the conjunct evaluated by the engine on the same two tables
+        ok_ids = None
+        for kind_, text in pfs:
+            if kind_ == 'sql':
+                ids = set(x[0] for x in db.execute('select id from tbl where ' + text).fetchall())
+                ok_ids = ids if ok_ids is None else ok_ids & ids
+
         def pf_ok(r):
             d = dict(g=r[2], h=r[3])
-            return all(d[c] is not None and f(d[c]) for c, f in pfs)
+            return all(d[c] is not None and f(d[c]) for c, f in pfs if c != 'sql') and (ok_ids is None or r[0] in ok_ids)
         # partition values
         if part is not None:
             got = set(db.execute(render(part.query)).fetchall())
@@ -983,9 +1293,11 @@ FIXED = [
     dict(kind='rev', nG=1, window=3, model_left=False, flags='0000', limit=None, expect=None, cls='rev_lt',
          sql="select * from int.tbl ta join mindsdb.tp3 tb where 2 < ta.t", absw='(b lt (c 2) (i t))', tcargs=('rev_lt', 2)),
     dict(kind='rej', nG=1, window=3, model_left=False, flags='0000', limit=None, expect='planning', cls=None,
-         rej='hidden_tuple', sql="select * from int.tbl ta join mindsdb.tp3 tb where ta.g in (ta.x, 1)", absw='(b in (i g 0) (O 1))'),
+         rej='hidden_tuple', sql="select * from int.tbl ta join mindsdb.tp3 tb where ta.g in (ta.x, 1)",
+         absw='(b in (i g 0) (K 1 0 (i x) (K 1 0 (c 1) N)))'),
     dict(kind='rej', nG=1, window=3, model_left=False, flags='0000', limit=None, expect='planning', cls=None,
-         rej='hidden_cast', sql="select * from int.tbl ta join mindsdb.tp3 tb where ta.g = cast(ta.x as int)", absw='(b eq (i g 0) (O 1))'),
+         rej='hidden_cast', sql="select * from int.tbl ta join mindsdb.tp3 tb where ta.g = cast(ta.x as int)",
+         absw='(b eq (i g 0) (K 1 1 (i x) N))'),
     dict(kind='rej', nG=1, window=3, model_left=False, flags='0000', limit=None, expect='planning', cls=None,
          rej='hidden_btw3', sql="select * from int.tbl ta join mindsdb.tp3 tb where ta.g between 1 and (ta.x + 1)",
          absw='(w (i g 0) (c 1) (b bad4 (i x) (c 1)))'),
@@ -1028,6 +1340,7 @@ def run(chk):
     cases += [gen_dbt(rng) for _ in range(250 if not deep else 2500)]      # data operand written as a sub-select
     dist = {}
     plines, pmeta, elines, emeta = [], [], [], []
+    edist = {}
     unabs = 0
     for case in cases:
         key = '%s%s/%s' % ('multi-' if case.get('multi') else 'dbt-' if case.get('dbt') else '', case['kind'], case.get('cls') or case.get('rej') or case.get('misc') or case.get('what'))
@@ -1065,7 +1378,7 @@ def run(chk):
             dist['skipped:' + type(e).__name__] = dist.get('skipped:' + type(e).__name__, 0) + 1
             continue
         # --- probe
-        tables = [gen_table(rng, deep) for _ in range(n_tables)]
+        tables = [(gen_table(rng, deep), gen_shops(rng) if case.get('closed') else []) for _ in range(n_tables)]
         fs = probe_case(case, tables)
         for f in fs:
             chk.classify(f, kf_match)
@@ -1074,9 +1387,9 @@ def run(chk):
         if plan is not None and case['kind'] in ('dom', 'rev') and rng.random() < (0.5 if quick else 1.0):
             try:
                 part, subs, data, j = fetch_steps(plan, case)
-                rows = tables[0]
+                rows, shops = tables[0]
                 dates = bool(case.get('dates'))
-                db = make_db(rows, dates)
+                db = make_db(rows, dates, shops)
                 allg = sorted(set(tuple(r[2 + i] for i in range(case['nG'])) for r in rows), key=str)
                 groups = [g for g in allg if None not in g][:2] or [tuple([0] * case['nG'])]
                 groups += [g for g in allg if None in g][:1]          # one partition record with a NULL
@@ -1086,14 +1399,23 @@ def run(chk):
                     for mode in (('E', 'F') if None in p else ('E',)):
                         for f in subs:
                             w = absW(f.query.where, case['nG'])
-                            if 'O' in w or 'L' in w:
+                            if correlated(f.query.where):      # absW drops qualifiers; the model's sub-queries are uncorrelated
+                                edist['skipped_correlated_subquery'] = edist.get('skipped_correlated_subquery', 0) + 1
                                 continue
+                            if 'O' in w or 'L' in w or not evaluable(w):
+                                edist['skipped_outside_ev'] = edist.get('skipped_outside_ev', 0) + 1
+                                continue
+                            edist['with_subquery' if '(S ' in w else 'plain'] = edist.get('with_subquery' if '(S ' in w else 'plain', 0) + 1
                             got = db.execute(render(substitute(f.query, pd, nullsafe=(mode == 'F')))).fetchall()
                             if dates:
                                 got = [(r[0], day_of(r[1])) + tuple(r[2:]) for r in got]
                             lim = '-' if f.query.limit is None else str(f.query.limit.value)
-                            elines.append('%s %s %s %s %s' % (mode, ','.join(map(cell, p)) or '-',
-                                                              row_line(rows, case['nG']), lim, w))
+                            if '(S ' in w:      # sub-queries select from the second table
+                                elines.append('%sS %s %s %s %s %s' % (mode, ','.join(map(cell, p)) or '-', row_line(rows, case['nG']),
+                                                                     row_line(shops, case['nG']), lim, w))
+                            else:
+                                elines.append('%s %s %s %s %s' % (mode, ','.join(map(cell, p)) or '-',
+                                                                  row_line(rows, case['nG']), lim, w))
                             emeta.append((case['sql'], rows, p, got, f.query.limit is None, case['nG']))
             except (Unabstractable, sqlite3.Error):
                 pass
@@ -1124,7 +1446,7 @@ def run(chk):
                 div += 1
                 if first is None:
                     first = dict(sql=sql, line=l, model=o, sqlite=grows)
-        chk.corr_result('eval', len(elines), div, first)
+        chk.corr_result('eval', len(elines), div, first, edist)
     except Exception as e:
         chk.oblige('corr:eval', 'correspondence', False, 'driver failed: %s' % e)
     for case, line, err in pmeta[:2] + pmeta[-2:]:
@@ -1137,6 +1459,9 @@ def run(chk):
                             '(= some (min a b) when both are present, the present one otherwise)'))
     chk.samples.append(dict(theorem='C15_reject_where: q.whereC = some w → w.isOperation → (opsOk w = false ∨ colsOk m.nG w = false ∨ andOk w = false) → '
                             'planTS Cfg.pinned m q = planning;  C15_no_crash: planTS cfg m q ≠ crash;  C15_otf_partial: output filter = user condition except `t = c` (KF-C15-1)'))
+    chk.samples.append(dict(theorem='C15_plan_subqueries: q.whereC = some w → planTS cfg m q = ok pl → (∀ t, findTF w = one t → closedNodes t = []) → '
+                            '(∀ s ∈ pl.selects, closedNodes s.whereC = closedNodes w) ∧ (partition WHERE likewise);  C15_replace_conjuncts: flatTree w → '
+                            'replaceTF tf new w = mapConj (fun c => if c = tf then new else c) w;  C15_witness_deep_replace / _rows: replaceDeep differs'))
     return chk.finish(assumptions=ASSUME)
 
 
@@ -1148,12 +1473,22 @@ def replay(path):
         return 1
     print('failure:', json.dumps({k: v for k, v in f.items() if k not in ('class',)}, default=str)[:1500])
     case = dict(sql=f['sql'], nG=f['nG'], window=f['window'], meta=f.get('meta'), models=f.get('models'), cat=f.get('cat'),
-                join_index=f.get('join_index', 0), n_joins=f.get('n_joins', 1))
+                join_index=f.get('join_index', 0), n_joins=f.get('n_joins', 1), dbt=f.get('dbt'), part_sql=f.get('part_sql'))
     line, plan, err = canon_real(case)
     print('real plan now:', line, err or '')
+    if f['sig'].startswith(('subquery-rewritten', 'dbt-subquery-captured')) and plan is not None:
+        part, subs, data_step, j = fetch_steps(plan, case)
+        want = user_subselects(case)
+        bad = [(str(x.query), subselects_of(x.query.where)) for x in subs + ([part] if part is not None else [])
+               if subselects_of(x.query.where) != want]
+        print('  sub-queries the user wrote :', want)
+        for q, got in bad[:2]:
+            print('  sent to the data source    :', got, '\n     in', q)
+        print('REPRODUCED' if bad else 'the sub-queries reach the data source as written')
+        return 1 if bad else 0
     if f.get('table') is not None and plan is not None:
         part, subs, data_step, j = fetch_steps(plan, dict(nG=f['nG'], join_index=f.get('join_index', 0), n_joins=f.get('n_joins', 1)))
-        db = make_db([tuple(r) for r in f['table']], bool(f.get('dates')))
+        db = make_db([tuple(r) for r in f['table']], bool(f.get('dates')), f.get('shops') or ())
         pd = dict(zip(GROUPS, f.get('partition', [])))
         got = []
         for s in subs:
